@@ -96,7 +96,7 @@ fn m_record(variant: u8, x: &Enr) -> Option<Enr> {
 // 0x03: Way        active-request idx << 8 | src (0 the request's destination, 1 addr_M, 2 destination IP with another port, 3 IPv4-mapped / 4 IPv4-compatible form of the destination)
 // 0x04: Replay     log idx << 8 | src (0 original, 1 addr_M, 2 IPv4-mapped form of the original)
 // 0x05: Answer     shape 0..7 (M answers V's oldest request to M)
-// 0x08: MRequest   M sends a PING under the session keys it shares with V (once)
+// 0x08: MRequest   M sends a PING under the session keys it shares with V (once); arg 1: from the IPv4-mapped spelling of its address
 // 0x07: ZeroKey    a TALK request claiming X from X's address, encrypted under the all-zero key
 // 0x06: Late       0: more than a challenge lifetime passes; 1: 0.6 of a lifetime passes (free, at most twice)
 fn code(kind: u32, arg: u32) -> u32 {
@@ -162,6 +162,8 @@ impl Driver for Attack {
             out.push((Ev::Ext(code(1, 0 << 8 | 0)), 1));
             out.push((Ev::Ext(code(1, 0 << 8 | 1)), 1));
             out.push((Ev::Ext(code(1, 1 << 8 | 0)), 1));
+            // M under its own id, but from another socket address than the one in its record
+            out.push((Ev::Ext(code(1, 1 << 8 | 1)), 1));
             if !w.cfg.extra_known.is_empty() {
                 out.push((Ev::Ext(code(1, 2 << 8 | 0)), 1));
             }
@@ -192,6 +194,7 @@ impl Driver for Attack {
             if let Some(s) = w.snap(V) {
                 if s.sessions.iter().any(|x| x.addr.socket_addr == m_addr()) && !w.scratch.iter().any(|(k, _)| k == "m-request") {
                     out.push((Ev::Ext(code(8, 0)), 1));
+                    out.push((Ev::Ext(code(8, 1)), 1));
                 }
             }
         }
@@ -345,7 +348,9 @@ impl Driver for Attack {
                         let msg = v::Request { id: v::RequestId(vec![0xEF]), body: v::RequestBody::Ping { enr_seq: 1 } }.encode();
                         let mut session = v::VSession::from_keys(sess.decryption_key, sess.encryption_key);
                         if let Ok(p) = session.encrypt_message(m_id(), &msg) {
-                            Attack::send(w, m_addr(), p).await;
+                            // arg 1: the same datagram seen from the IPv4-mapped spelling of M's address
+                            let src = if arg == 1 { mapped(m_addr()) } else { m_addr() };
+                            Attack::send(w, src, p).await;
                         }
                     }
                 }
@@ -492,8 +497,14 @@ impl Driver for Attack {
             // record's UDP address equals the source address (or the record has none)
             if let HandlerOut::Established(enr, addr, v::ConnectionDirection::Incoming) = &raw {
                 w.count("incoming_established");
-                if let Some(s) = enr.udp4_socket() {
-                    if SocketAddr::V4(s) != *addr {
+                // (the endpoint of the family the packets came from; a record without one is accepted
+                // by design — the handler-level grid of C12 states the same rule)
+                let advertised: Option<SocketAddr> = match addr {
+                    SocketAddr::V4(_) => enr.udp4_socket().map(SocketAddr::V4),
+                    SocketAddr::V6(_) => enr.udp6_socket().map(SocketAddr::V6),
+                };
+                if let Some(s) = advertised {
+                    if s != *addr {
                         w.violate("C12", "an incoming session admits a node only if the UDP address in its record equals the address its packets came from", "established-with-foreign-address", format!("record says {s}, packets came from {addr}"));
                     }
                 }
